@@ -74,7 +74,9 @@ func driveExploreWild(seed int64, tier, out, replay string) {
 	n := 0
 	for wi := 0; wi < 30; wi++ {
 		wopt := gen.DefaultWorldOptions()
-		wopt.Interfaces = true
+		wopt.Interfaces = os.Getenv("EXPLORE_NOIFACE") == ""
+		wopt.UnionBias = os.Getenv("EXPLORE_UNION") != ""
+		wopt.InputArgs = os.Getenv("EXPLORE_INPUTS") != ""
 		ws := rng.Int63()
 		r, err := NewRig(gen.NewWorld(hx.NewRand(ws), wopt), RigConfig{})
 		if err != nil {
@@ -82,8 +84,12 @@ func driveExploreWild(seed int64, tier, out, replay string) {
 		}
 		for j := 0; j < 40; j++ {
 			oo := opOptionsFor("inD01", r.World)
-			oo.Wild = true
-			oo.Directives, oo.NamedFrags = false, false
+			oo.Directives, oo.NamedFrags = os.Getenv("EXPLORE_DIRS") != "", os.Getenv("EXPLORE_NAMED") != ""
+			oo.TwinRoots = os.Getenv("EXPLORE_TWIN") != ""
+			oo.UnevenIDs = os.Getenv("EXPLORE_UNEVEN") != ""
+			oo.UnionPartial = os.Getenv("EXPLORE_PARTIAL") != ""
+			oo.HelperDirectives = os.Getenv("EXPLORE_HELPERDIRS") != ""
+			oo.Wild = os.Getenv("EXPLORE_PLAIN") == ""
 			op := gen.Operation(hx.NewRand(rng.Int63()), r.Merged, oo)
 			what, _ := compareFed(r, op)
 			if what == "" || strings.HasPrefix(what, "skip:") {
